@@ -22,6 +22,11 @@ threads and every schedule):
   * `C13_write_section`, `C13_code` the section of Write after the handshake, walked WITH its loops,
                                     is `out.Lock(); loop { transport write }; out.Unlock()`: the
                                     mutex is taken outside the record loop, once per call
+  * `C13_pa_facts`, `C13_pa_unblockers_never_wait`, `C13_pa_parked_call_can_be_unblocked`
+                                    the ADAPTER's public object (pa.ProtocolSwitchServerConn), every
+                                    method it declares: its first Read / Write is parked in the header
+                                    peek WITH the object's mutex held; Close and the deadline setters
+                                    (declared or promoted) need no mutex held across anything blocking
   * `C13_checker_sound_complete`    the executable `isWholeInterleaving` used by the oracle on the
                                     REAL peer stream decides `WholeInterleaving`
   * `C13_facts`, `C13_code`         the facts of THIS tree the instantiations rely on
@@ -29,6 +34,7 @@ What is NOT proved (runtime observations only, see checks/C13.json): data-race f
 accesses under the Go memory model, scheduler behaviour, Close unblocking a blocked syscall.
 -/
 import Gotlcp.Lemmas.Locks
+import Gotlcp.Model.LocksPA
 import Gotlcp.Generated.Facts
 
 set_option linter.unusedSimpArgs false
@@ -373,6 +379,93 @@ example :
     let parked : Thread Unit := { held := [lkOut], prog := [.emit (), .rel lkOut] }
     let s0 : State (LockM Unit) := ⟨[parked, { prog := ofEvents Unit [(0, 2), (1, 2)] }], {}⟩
     (run (LockM Unit) s0 (List.replicate 6 1)).ths.map (fun t => t.prog.length) = [2, 2] := by decide
+
+/-! ### the adapter's public object: Close and the deadline setters do not queue behind the first call -/
+
+open Gotlcp.Model.LocksPA Gotlcp.Model.PA in
+/-- what the extracted programs of `pa.ProtocolSwitchServerConn` say — the programs of EVERY method
+the type declares (`swProgs`; today Read, Write, ProtectedConn and the internal conn / detect /
+protected) and of the four calls of the `net.Conn` contract that get a parked goroutine back
+(`swUnblockers`: the declared method if there is one, else the method promoted from the embedded raw
+connection, which goes straight to the transport):
+the object has one mutex; every program obeys the lock discipline; none of the four unblocking
+calls acquires a mutex that ANY method holds at a place where it can be parked (transport read,
+transport write, call into the selected stack).  Not vacuous: the mutex IS held across a transport
+read by `Read` and by `Write` (the header peek of `detect()`), and nothing holds it across the call
+into the selected stack. -/
+theorem C13_pa_facts :
+    Facts.pa.swEmbedsRawConn = true ∧
+    Facts.pa.swLockNames = ["ProtocolSwitchServerConn.lock"] ∧
+    Facts.pa.swUnblockers.map (·.1) = ["Close", "SetDeadline", "SetReadDeadline", "SetWriteDeadline"] ∧
+    (∀ p ∈ Facts.pa.swProgs ++ Facts.pa.swUnblockers, ordered id [] (ofEvents Unit p.2) = true) ∧
+    (∀ u ∈ Facts.pa.swUnblockers, ∀ l ∈ acquires (ofEvents Unit u.2),
+      ∀ p ∈ Facts.pa.swProgs, l ∉ heldAtBlocking [] p.2) ∧
+    (∀ m ∈ ["Read", "Write"], (∃ p ∈ Facts.pa.swProgs, p.1 = m) ∧
+      0 ∈ heldAtBlocking [] (lookupProg Facts.pa.swProgs m) ∧
+      (∃ e ∈ lookupProg Facts.pa.swProgs m, e.1 = evIntoStack)) := by
+  decide
+
+open Gotlcp.Model.LocksPA in
+/-- "Close unblocks pending calls" / "no deadlock" for the adapter's public object, the part a lock
+model can carry: however many goroutines are PARKED (never scheduled again) inside methods of the
+object — each holding whatever mutexes the extracted programs hold at a blocking place, e.g. the
+first `Read` inside `detect()` waiting for the client's record header with `c.lock` held, and any
+number of further calls queued behind it — a goroutine calling `Close`, `SetDeadline`,
+`SetReadDeadline` or `SetWriteDeadline` runs to the END of the call on its own.  (That the closed
+transport / the passed deadline then makes the parked call return is the transport's contract and a
+runtime observation: scenario `pafirst`.) -/
+theorem C13_pa_unblockers_never_wait (name : String)
+    (hname : name ∈ ["Close", "SetDeadline", "SetReadDeadline", "SetWriteDeadline"])
+    (a b : List (Thread Unit))
+    (hparked : ∀ u ∈ a ++ b, ∀ l ∈ u.held, ∃ p ∈ Facts.pa.swProgs, l ∈ heldAtBlocking [] p.2)
+    (sh : Shared Unit) :
+    ∃ th' sh', Reach (LockM Unit)
+        ⟨a ++ ({ prog := ofEvents Unit (lookupProg Facts.pa.swUnblockers name) } : Thread Unit) :: b, sh⟩
+        ⟨a ++ th' :: b, sh'⟩ ∧ th'.prog = [] := by
+  obtain ⟨_, _, hnames, hord, hdisj, _⟩ := C13_pa_facts
+  have hmem : ∃ u ∈ Facts.pa.swUnblockers, u.2 = lookupProg Facts.pa.swUnblockers name := by
+    have hin : name ∈ Facts.pa.swUnblockers.map (·.1) := by rw [hnames]; exact hname
+    obtain ⟨q, hq, hqn⟩ := List.mem_map.mp hin
+    unfold lookupProg
+    cases hf : Facts.pa.swUnblockers.find? (fun p => p.1 == name) with
+    | none =>
+      have := List.find?_eq_none.mp hf q hq
+      simp [hqn] at this
+    | some r => exact ⟨r, List.mem_of_find?_eq_some hf, rfl⟩
+  obtain ⟨u, hu, hue⟩ := hmem
+  rw [← hue]
+  apply solo_run id a b (ofEvents Unit u.2) [] _ sh
+  · simp
+  · exact hord u (List.mem_append_right _ hu)
+  · intro t ht l hl hacq
+    obtain ⟨p, hp, hheld⟩ := hparked t ht l hl
+    exact hdisj u hu l hacq p hp hheld
+
+open Gotlcp.Model.LocksPA Gotlcp.Model.PA in
+/-- the scenario itself on the extracted programs, for EVERY method the object declares (not a
+fixed list: a method added tomorrow is quantified over): goroutine 0 is parked in the method at its
+first transport read or at its call into the selected stack, holding what the program holds there,
+and does not move; goroutine 1 makes one of the four unblocking calls: that call returns.  (This is
+the function the oracle predicts scenario `pafirst` with.) -/
+theorem C13_pa_parked_call_can_be_unblocked :
+    ∀ m ∈ Facts.pa.swProgs, ∀ k ∈ parkKinds, ∀ u ∈ Facts.pa.swUnblockers,
+      unblockerReturns Facts.pa.swProgs Facts.pa.swUnblockers m.1 k u.1 = true := by decide
+
+open Gotlcp.Model.LocksPA Gotlcp.Model.PA in
+/-- non-vacuity: the first `Read` IS parked with the mutex held, and the promoted Close gets past it … -/
+example : parkAt evTransportRead [] (lookupProg Facts.pa.swProgs "Read") = some ([0], [(1, 0), (0, 0), (1, 0), (12, 0)]) ∧
+    pafirstReturns Facts.pa.swProgs Facts.pa.swUnblockers 5 "Read" 0 "close" = true := by decide
+
+open Gotlcp.Model.LocksPA Gotlcp.Model.PA in
+/-- … whereas a declared `Close` that first looks the installed stack up under the mutex
+(`c.lock.Lock(); w := c.wrapped; c.lock.Unlock(); w.Close() / c.Conn.Close()`) never returns while
+the client is silent — the parked `Read` is waiting for exactly that call — although it is fine
+once the header has arrived; and a deadline setter written the same way is stuck just the same -/
+example :
+    pafirstReturns Facts.pa.swProgs [("Close", [(0, 0), (1, 0), (12, 0), (8, 0)])] 5 "Read" 0 "close" = false ∧
+    pafirstReturns Facts.pa.swProgs [("Close", [(0, 0), (1, 0), (12, 0), (8, 0)])] 5 "Write" 3 "close" = false ∧
+    pafirstReturns Facts.pa.swProgs [("Close", [(0, 0), (1, 0), (12, 0), (8, 0)])] 5 "Read" 5 "close" = true ∧
+    pafirstReturns Facts.pa.swProgs [("SetDeadline", [(0, 0), (1, 0), (13, 0)])] 5 "Write" 0 "d" = false := by decide
 
 /-! ### facts of this tree -/
 
